@@ -282,7 +282,7 @@ func properties() map[string]*PropertySpec {
 				Tweak: func(c *HarnessCfg, tier string) { c.DecodeWidths = "def=2" }},
 			{Name: "H_C02_readRequest_wide", Native: true, Tiers: "thorough", Reach: []string{"returned", "decoded"},
 				Bound: "as quick, with <= 2 controls per message and control values re-decoded at width 3",
-				Tweak: func(c *HarnessCfg, tier string) { c.DecodeWidths = "def=3"; c.MaxPaths = 1500000 }},
+				Tweak: func(c *HarnessCfg, tier string) { c.DecodeWidths = "def=3"; c.MaxPaths = 600000 }},
 		}})
 	return m
 }
